@@ -305,3 +305,69 @@ def search(contract, seed_inputs, budget=60000, seed=0):
         if j:
             return cand, j, tried
     return None, None, tried
+
+
+# ---------------------------------------------------------------- compiled quoter: replay on a fresh build
+
+_EXT = {}
+
+
+def build_extension():
+    """cythonize + compile the *current* /repo/yarl/_quoting_c.pyx into a scratch directory
+    (outside /repo and /verif, removed at exit) and import it, so that replays exercise exactly
+    the text whose verification conditions failed"""
+    if "mod" in _EXT:
+        return _EXT["mod"]
+    import atexit
+    import importlib.util
+    import shutil
+    import subprocess
+    import sysconfig
+    import tempfile
+    d = tempfile.mkdtemp(prefix="yarl_verif_ext_")
+    atexit.register(shutil.rmtree, d, True)
+    shutil.copy("/repo/yarl/_quoting_c.pyx", d + "/_quoting_c_replay.pyx")
+    subprocess.run(["/venv/bin/cython", "-3", "_quoting_c_replay.pyx", "-o", "_quoting_c_replay.c"], cwd=d, check=True,
+                   capture_output=True, timeout=120)
+    inc = sysconfig.get_paths()["include"]
+    so = d + "/_quoting_c_replay" + sysconfig.get_config_var("EXT_SUFFIX")
+    subprocess.run(["gcc", "-shared", "-fPIC", "-O1", "-fno-strict-aliasing", "-I" + inc, "_quoting_c_replay.c", "-o", so],
+                   cwd=d, check=True, capture_output=True, timeout=300)
+    spec = importlib.util.spec_from_file_location("_quoting_c_replay", so)
+    mod = importlib.util.module_from_spec(spec)
+    spec.loader.exec_module(mod)
+    _EXT["mod"] = mod
+    return mod
+
+
+def c_quoter_candidates(seed_text=None):
+    base = ["", "a", "%", "%4", "%41", "%4g", "%zz", "a b", "+", "é", "€", "\U0001f600", "\U00010000", "￿",
+            "\ud800", "a\udc00b", "%\ud80041", "%00", "%7F", "%2F", "%2f", "%25", "/?#[]@:", "=&;+", "\x00\x7f", "%C3%A9",
+            "%c3%a9", "a%", "a%4", "%%41", "\u0080", "߿", "ࠀ"]
+    if seed_text:
+        base.insert(0, seed_text)
+    out = list(base)
+    for pre in (8189, 8190, 8191, 8192, 8193, 16383, 16384):
+        for tail in ("%41b", " b", "é", "%2f", "b", "\ud800", "%zz", "%"):
+            out.append("a" * pre + tail)
+    return out
+
+
+def search_c_quoter():
+    """first (configuration, text) on which the freshly built compiled quoter disagrees with the
+    token-level specification (and with the pure-Python quoter)"""
+    from contracts import spec_quote
+    from contracts.registry import PY_QUOTERS, _quoter_configs
+    mod = build_extension()
+    cfgs = _quoter_configs()
+    for name, pyq in PY_QUOTERS.items():
+        cq = mod._Quoter(**cfgs[name])
+        for text in c_quoter_candidates():
+            if cfgs[name].get("requote", True) and spec_quote.surrogate_in_escape_window(text):
+                continue      # recorded known finding: reported separately, never searched for
+            want = outcome(lambda t: spec_quote.q_spec(pyq, t), [text])
+            got = outcome(cq, [text])
+            if not agrees(got, want):
+                return {"quoter": name, "config": cfgs[name], "text": text}, {"real": show(got), "spec": show(want),
+                                                                              "agrees": False, "in_pre": True}
+    return None, None
